@@ -9,10 +9,14 @@ CLAIMED = {
     'C01': ('proof', 'Class invariant of BiddingPhase (38 conjuncts: each slot of the advertised vector == legality of that call by the Laws, in every position in progress) proved established by __init__ and preserved by take_bid for an arbitrary symbolic state and call; take_bid proved to accept iff legal and to leave every field unchanged on rejection. Induction over the call history is the class-invariant rule, so every history of every length is covered by one symbolic step.', '4 (C01)'),
     'C02': ('proof', 'Same invariant: active seat == dealer rotated by the number of calls, per-seat lists == the seat\'s share of the common history (quantified over list positions), over <=> the history ends in the pattern the Laws prescribe; take_bid proved to return FINISHED exactly when the call ends the auction, and to raise with nothing changed once over.', '4 (C02)'),
     'C03': ('proof', 'take_bid proved to update last bid, its bidder, doubling flags and the first-to-name table as the Laws prescribe (fill-when-empty), contract() proved to report None before the end, a passed-out contract without bids, else last bid / effective doubling status / board vulnerability / table entry of the bidding side and denomination.', '4 (C03)'),
+    'C04': ('proof', 'PlayingPhase class invariant (turn = leader rotated by cards on the table, one recorded trick and one credited trick per completed trick) proved for __init__/play_card/play_card_by_player; play_card proved against a declarative winner spec (highest trump else highest of suit led) for arbitrary symbolic cards incl. revokes; calc_highest proved for lists of ANY length by loop invariant; history append proved with the old leader and the four cards in order.', '4 (C04)'),
+    'C05': ('proof', 'Exceptional postconditions (refused play: ValueError and every field unchanged) and the partition invariant (four hands and the played cards pairwise disjoint, |played| = number of plays, union conserved) proved for PlayingPhaseWithHands.play_card_by_player from an arbitrary invariant state with a symbolic card (complete 52-way substitution split for the counting conjunct); observer variant proved for own/dummy hand branches; lemma: 52 plays => all hands empty.', '4 (C05)'),
+    'C06': ('proof', 'available_cards / current_available_cards* proved pointwise (52 guards) equal to the follow-suit rule for every hand (any subset of the pack) and every led card; subset / non-empty lemmas; RandomPlay.play proved to return a playable card under the assumed random.choice contract.', '4 (C06)'),
     'C07': ('proof', 'calc_bid_score / calc_score and the vulnerability chain (Contract.is_vul -> Player.is_vul -> Pair.is_vul) are proved equal to an independent Law-77 formula oracle for the whole finite domain in a handful of symbolic queries; every callee is used by contract and its contract is proved in the same run.', '4 (C07)'),
     'C15': ('proof', 'Every converter is proved equal to a spec table over its complete finite domain (symbolic for arithmetic converters, finite case split + constant folding for text converters); inverse/injectivity lemmas are proved over the spec tables.', '4 (C15)'),
     'C16': ('proof', 'point_difference_to_imps is proved equal to the official scale for every (unbounded) integer; monotonicity, oddness and range are lemmas over that contract; score_to_imp is proved by contract.', '4 (C16)'),
 }
+CLAIMED['C11'] = ('proof', 'Part (a) proved: relational lemma - an ObservedPlayingPhase built from the manager state at any seat, fed the play the manager accepted, accepts it too and agrees again on contract, declarer, turn, trick number, leaders, history, counts, own and dummy hand (both methods used by contract, contracts proved in the same run). Part (b) (network client mirrors) is not yet under contract: see evidence assumptions.', '4 (C11)')
 NA = {
     'C09': 'liveness over all thread schedules: contracts on sequential functions cannot express or decide it and no concurrent deductive verifier for Python exists here (DESIGN section 6)',
 }
